@@ -451,6 +451,21 @@ def order_agrees(residual, items, scal, named):
     return True
 
 
+def fguard_prop(ir):
+    k = ir[0]
+    if k == "v":
+        return "v"
+    if k == "const":
+        return "(%d : Int)" % ir[1]
+    if k in ("add", "sub"):
+        return "(%s %s %s)" % (fguard_prop(ir[1]), "+" if k == "add" else "-", fguard_prop(ir[2]))
+    if k == "cmp":
+        return "(%s %s %s)" % (fguard_prop(ir[2]), {">=": "≥", ">": ">", "<": "<", "<=": "≤", "==": "=", "!=": "≠"}[ir[1]], fguard_prop(ir[3]))
+    if k == "not":
+        return "(¬ %s)" % fguard_prop(ir[1])
+    return "(%s %s %s)" % (fguard_prop(ir[1]), "∨" if k == "or" else "∧", fguard_prop(ir[2]))
+
+
 def range_prop(ir):
     k = ir[0]
     if k == "zero":
@@ -595,6 +610,17 @@ def generate(fns):
                 rep["order_differs"].append(f["name"])
         rep["contracts"].append(f["name"])
         out.append("")
+    # guards over small-integer fields inside buffers
+    out.append("-- guards over small-integer fields inside data buffers (`if (… p[i] …) return ERR_X`): v = the field, C integer promotion -> Int")
+    for f in fns:
+        for i, (fld, ir, cls) in enumerate(f.get("fguards", [])):
+            if ir[0] == "unrecognised":
+                rep.setdefault("field_guards_unrecognised", []).append("%s: %s" % (f["name"], ir[1]))
+                continue
+            out.append("/-- `%s` (%s), field `%s`, returns %d -/" % (f["name"], f["src"], fld, cls))
+            out.append("def fguard_%s_%d (v : Int) : Prop := %s" % (f["lname"], i, fguard_prop(ir)))
+            rep.setdefault("field_guards", []).append((f["name"], fld, cls))
+    out.append("")
     # private-key range checks found in the code
     out.append("-- private-key range checks of the code (`if (…) return ERR_BAD_PRIVKEY`): d = the key, q = the bound it is compared with")
     for f in fns:
